@@ -1044,6 +1044,15 @@ class _SmartAddHelper:
                 kind = osutils.file_kind_from_stat_mode(stat_value.st_mode)
             else:
                 kind = this_ie.kind
+                if kind in ("file", "directory", "symlink"):
+                    # The inventory records what was there when the entry was
+                    # added. Walk the path as what is on disk now: a versioned
+                    # file replaced by a directory has content to add, a
+                    # versioned directory replaced by a file cannot be listed.
+                    try:
+                        kind = file_kind(abspath)
+                    except (NoSuchFile, OSError):
+                        pass
 
             # allow AddAction to skip this file
             if self.action.skip_file(self.tree, abspath, kind, stat_value):
